@@ -246,6 +246,9 @@ func GenPSet(model string, r *core.Rand, o genOpts) PSet {
 		mPow := 1.0
 		if !r.Bool(0.25) {
 			mPow = r.Range(0.5, 1)
+			if r.Bool(0.2) { // just below the special value 1 (the kernel has a linear shortcut for m == 1)
+				mPow = 1 - r.LogRange(1e-9, 1e-3)
+			}
 		}
 		p["InflowBias"] = one(bias)
 		p["RoutingConstant"] = one(k)
@@ -679,7 +682,60 @@ func GenInputs(model string, r *core.Rand, T int, ps PSet) [][]float64 {
 			in[i] = uniformSeries(r, T, 0, 10)
 		}
 	}
+	// Exact coincidences that independently drawn series never produce but that are perfectly legal: two inputs that
+	// a kernel compares or subtracts being EQUAL on a step (demand == available water, rainfall == PET, ...), and a
+	// water volume sitting EXACTLY on (or one representable number beside) the documented minimum-volume threshold.
+	if pairs, ok := tiePairs[model]; ok && r.Bool(0.3) {
+		pr := pairs[r.Intn(len(pairs))]
+		a, b := byName(pr[0]), byName(pr[1])
+		if a >= 0 && b >= 0 {
+			for t := 0; t < T; t++ {
+				if r.Bool(0.25) {
+					in[b][t] = in[a][t]
+				}
+			}
+		}
+	}
+	if vo, ok := volumeOutflow[model]; ok && r.Bool(0.35) {
+		v, o := byName(vo[0]), byName(vo[1])
+		if v >= 0 && o >= 0 {
+			for t := 0; t < T; t++ {
+				if r.Bool(0.15) {
+					in[v][t] = pick(r, minimumVolume, math.Nextafter(minimumVolume, 0), math.Nextafter(minimumVolume, 1), minimumVolume/2)
+					in[o][t] = 0
+				}
+			}
+		}
+	}
 	return in
+}
+
+// tiePairs: inputs that a kernel compares with or subtracts from one another.
+var tiePairs = map[string][][2]string{
+	"PartitionDemand": {{"input", "demand"}},
+	"GR4J":            {{"rainfall", "pet"}},
+	"Sacramento":      {{"rainfall", "pet"}},
+	"Simhyd":          {{"rainfall", "pet"}},
+	"Surm":            {{"rainfall", "pet"}},
+	"StorageRouting":  {{"rainfall", "evap"}, {"inflow", "lateral"}},
+	"Muskingum":       {{"inflow", "lateral"}},
+	"Storage":         {{"inflow", "demand"}, {"rainfall", "pet"}},
+	"Gate":            {{"trigger", "incoming"}},
+	"LumpedConstituentRouting": {{"inflow", "outflow"}},
+	"ConstituentDecay":         {{"inflow", "outflow"}},
+	"StorageDissolvedDecay":    {{"inflow", "outflow"}},
+	"StorageTrapAll":           {{"inflow", "outflow"}},
+	"StorageParticulateTrapping": {{"inflow", "outflow"}},
+}
+
+// volumeOutflow: (water volume, outflow) inputs of the models that flush below MINIMUM_VOLUME; the working volume is
+// outflow*dt + volume, so the outflow is zeroed on the threshold steps.
+var volumeOutflow = map[string][2]string{
+	"LumpedConstituentRouting":       {"storage", "outflow"},
+	"ConstituentDecay":               {"storage", "outflow"},
+	"InstreamFineSediment":           {"reachVolume", "outflow"},
+	"InstreamParticulateNutrient":    {"reachVolume", "outflow"},
+	"InstreamDissolvedNutrientDecay": {"reachVolume", "outflow"},
 }
 
 // GenRun draws a complete multi-cell run: P parameter sets, B input blocks.
